@@ -1481,6 +1481,260 @@ theorem merge_matched_inner_cd {S : Schema} (K : KeyOrderOn S P) {o : MergeOpts}
   exact ⟨pre ++ rest, E, Y', by rw [hstep]; simp, hY', hgY', hkY', hloc, hT2, hR2,
     fun z hz => Or.inl (by rcases List.mem_append.mp hz with h | h <;> simp [h])⟩
 
+/-! ### an inner node created by the first diff and changed inside by the second -/
+
+theorem dupSingle_kids' {S : Schema} (s : Nat) (f : Flags) (m : List Meta) (ks : List DNode)
+    (hk : ∀ k ∈ keysOf S ks, k.isTerm = true) : (dupSingle S (.inner s f m ks)).kids = mkCreatedL (keysOf S ks) := by
+  simp only [dupSingle, DNode.kids]
+  generalize keysOf S ks = kk at hk
+  induction kk with
+  | nil => rfl
+  | cons k ks' ih =>
+    have h1 := hk k (List.mem_cons_self ..)
+    simp only [List.map_cons, mkCreatedL]
+    rw [ih (fun x hx => hk x (List.mem_cons_of_mem _ hx))]
+    cases k with
+    | inner => simp [DNode.isTerm] at h1
+    | term s' f' m' v' => rfl
+
+/-- `create` of an inner node whose children act on the (created) keys: whatever the children are — plain copies, or what the
+merge made of them -/
+theorem acts_create_inner {S : Schema} (K : KeyOrderOn S P) {s : Nat} {f : Flags} {m : List Meta} {ks : List DNode}
+    {inh : Option Op} {V : List DNode} (hd : Dom S P (.inner s f m ks)) (hk : S.isKey s = false)
+    (hop : effOp (.inner s f m ks) inh = some .create) (hgk : goodT S P (keysOf S ks) = true)
+    (hkids : ActsL S P fx (childInhOf (.inner s f m ks) inh) (noKeys S ks) (normL13 (keysOf S ks)) V) :
+    Acts S P fx inh (.inner s f m ks) none (some (.inner s {} [] V)) := by
+  intro n hp X hh hgX hkb hl
+  have hl' := look_none_of_norm hl
+  obtain ⟨k, rfl⟩ : ∃ k, n = k + 1 := ⟨n - 1, by have := height_pos13 (DNode.inner s f m ks); omega⟩
+  have hks : heightL (noKeys S ks) ≤ k := Nat.le_trans (heightL_noKeys_le S ks) (height_inner_le hh)
+  have hkt : ∀ kk ∈ keysOf S ks, kk.isTerm = true := by
+    intro kk hkk
+    have hdk := goodN_dom (goodL_mem (goodT_goodL hgk) hkk)
+    rw [hdk.typed]; exact K.keyTerm (mem_keysOf_isKey hkk)
+  have hX0 : (dupSingle S (.inner s f m ks)).kids = mkCreatedL (keysOf S ks) := dupSingle_kids' s f m ks hkt
+  have hn0 : normL13 (mkCreatedL (keysOf S ks)) = normL13 (keysOf S ks) := normL_mkCreatedL _
+  have hg0 : goodT S P (mkCreatedL (keysOf S ks)) = true := by rw [goodT_congr_norm K.pinv hn0]; exact hgk
+  obtain ⟨K1, hK1, hgK1, hkK1, hnK1⟩ := hkids k true (mkCreatedL (keysOf S ks)) hks hg0 hn0
+  let n0 : DNode := .inner s { dflt := f.dflt, new := true } [] K1
+  have hkeys : normL13 (keysOf S K1) = normL13 (keysOf S ks) := by
+    rw [hkK1, ← keysOf_normL, hn0, keysOf_normL, keysOf_keysOf]
+  have hn0d : Dom S P n0 := by
+    refine ⟨hd.nuo, hd.ndi, hd.typed, ?_⟩
+    rw [K.pinv.pcongr (x := n0) (y := .inner s f m ks) rfl rfl (by
+      show keyPairs (keysOf S K1) = keyPairs (keysOf S ks)
+      rw [← keyPairs_normL, hkeys, keyPairs_normL])]
+    exact hd.sat
+  have hgn0 : goodN S P n0 = true := goodN_iff.mpr ⟨hn0d, hgK1⟩
+  have hcn : ∀ x, matchP S n0 x = matchP S (.inner s f m ks) x := fun x =>
+    matchP_of_same_keys (d := .inner s f m ks) (d' := n0) hd.ndi rfl rfl hkeys x
+  have hcn' : matchP S (.inner s f m ks) n0 = true := by
+    rw [matchP_symm K hd hn0d, hcn]; exact matchP_refl K hd
+  obtain ⟨h1, hkk, h2, h3⟩ := fwd_insert K hgX hd hk hkb hl' hgn0 rfl hcn hcn'
+  refine ⟨insertNode S X n0, ?_, h1, hkk, h2, ?_⟩
+  · rw [applyNode_succ_nuo hd.nuo, hop]
+    simp only [hX0, kids_inner, hK1, Except.bind]
+    rfl
+  · rw [h3]
+    simp [n0, normN, hnK1]
+
+/-- an inner node CREATED by the first diff (with its subtree) meets a node with operation `none` of the second diff — the created
+instance is changed inside: the children of the source node are merged into the copies of the created subtree, which inherit
+`create` (induction hypothesis `IH`); the node stays a `create` of the changed subtree -/
+theorem merge_matched_inner_cn {S : Schema} (K : KeyOrderOn S P) {o : MergeOpts} {n : Nat} {hp : Bool} {cur sin : Option Op}
+    {s : Nat} {f : Flags} {ms : List Meta} {ks : List DNode} {t : DNode}
+    {kp pre rest L Y : List DNode} {E : DNode → Option DNode} (IH : ListMergeSpec S P fx o ks)
+    (hh : (DNode.inner s f ms ks).height ≤ n) (hgL : goodT S P L = true) (hgY : goodT S P Y = true)
+    (hkp : ∀ k ∈ kp, S.isKey k.sid = true ∧ k.sid < s)
+    (hT : TInv S P fx cur (pre ++ t :: rest) L E) (hR : Rel S P (pre ++ t :: rest) L E Y)
+    (hpre : ∀ a ∈ pre, matchP S (.inner s f ms ks) a = false) (hm : matchP S (.inner s f ms ks) t = true)
+    (hO : Orig S P cur L t) (hsafe : safeP S cur sin t (.inner s f ms ks) = true)
+    (hcop : effOp t cur = some .create) (hsop : effOp (.inner s f ms ks) sin = some .none)
+    (hsex : exactE S P sin (look S Y (.inner s f ms ks)) (.inner s f ms ks) = true) (hls : litN (.inner s f ms ks) = true)
+    (hkb : KeysBelow S (.inner s f ms ks) Y) :
+    MergeConcl S P fx o n hp cur sin (.inner s f ms ks) kp (pre ++ t :: rest) L Y := by
+  obtain ⟨htex, hlt, hown⟩ := hO
+  obtain ⟨hsd, _, hsk⟩ := exactE_base hsex
+  obtain ⟨htd, htm, htk⟩ := exactE_base htex
+  simp only [safeP, Bool.and_eq_true, Bool.not_eq_eq_eq_not, Bool.not_true] at hsafe
+  obtain ⟨⟨⟨htnt, _⟩, hkord⟩, hsafeK⟩ := hsafe
+  cases t with
+  | term => simp [DNode.isTerm] at htnt
+  | inner st ft mt kt =>
+  have hss : st = s := matchP_sid hm
+  subst hss
+  have hmt : mt = [("operation", bs "create")] ∨ (mt = [] ∧ cur = some .create) := by
+    rcases hown with hown | ⟨h1, h2⟩
+    · left
+      have hot : ownOp (DNode.inner st ft mt kt) = some .create := hown .create hcop (Or.inr (by decide))
+      simp only [litN, Bool.and_eq_true, litInner, Bool.or_eq_true, beq_iff_eq] at hlt
+      rcases hlt.1 with ((h | h) | h) | h
+      · subst h; simp [ownOp, getMeta, DNode.metas] at hot
+      · subst h; simp [ownOp, getMeta, DNode.metas, ofBytes_none] at hot
+      · exact h
+      · subst h; simp [ownOp, getMeta, DNode.metas, ofBytes_delete] at hot
+    · exact Or.inr ⟨h1, h2⟩
+  have hcur' : childInhOf (.inner st ft mt kt) cur = some .create := by
+    rcases hmt with rfl | ⟨rfl, rfl⟩
+    · exact childInh_of_own _ .create cur (ownOp_of_metas _ .create rfl) (by decide)
+    · simp [childInhOf, ownOp, getMeta, DNode.metas]
+  have hsin' : childInhOf (.inner st f ms ks) sin = some .none := childInh_none hsop
+  obtain ⟨hx0, hplt, hgkt⟩ := exactE_create htex hcop
+  obtain ⟨y, hy, hnes, hexks⟩ := exactE_none_inner hsex hsop
+  rw [hsin'] at hexks
+  simp only [DNode.kids] at hplt hgkt
+  obtain ⟨hgy, hys⟩ := good_look hgY y hy
+  have hgyk := goodN_kidsT hgy
+  have hyt : y.isTerm = false := by rw [(goodN_dom hgy).typed, hys, ← hsd.typed]; rfl
+  have hmem : DNode.inner st ft mt kt ∈ pre ++ DNode.inner st ft mt kt :: rest := by simp
+  have hperm : (pre ++ DNode.inner st ft mt kt :: rest).Perm (DNode.inner st ft mt kt :: (pre ++ rest)) := List.perm_middle
+  have hT1 := hT.perm hperm
+  have hR1 := hR.perm hperm
+  rw [hcur', hsin'] at hsafeK
+  simp only [DNode.kids] at hsafeK hkord
+  have hEt : E (.inner st ft mt kt) = some (normN (.inner st ft mt kt)) :=
+    Acts.det (hT.acts _ hmem) (by rw [hx0]; exact acts_create K (by rw [← hx0]; exact htex) hcop) hgL (hT.kb _ hmem) rfl
+  have hlY : look S Y (.inner st f ms ks) = look S Y (.inner st ft mt kt) := look_congr K (goodT_goodL hgY) hsd htd hm
+  have hykt : normL13 y.kids = normL13 kt := by
+    have h1 := hR.on _ hmem
+    rw [← hlY, hy, hEt] at h1
+    simp only [Option.map_some, Option.some.injEq, normN_inner_form hyt, normN, DNode.inner.injEq] at h1
+    exact h1.2.2.2
+  -- the children of the created subtree (their `create` inherited) on the keys of the instance
+  let L' : List DNode := keysOf S y.kids
+  have hgL' : goodT S P L' = true := goodT_keysOf K hgyk
+  have hleadt : keysLead S kt = true := goodT_lead hgkt
+  have hkid : ∀ c ∈ noKeys S kt, c ∈ kt ∧ goodN S P c = true ∧ plainN c = true ∧ S.isKey c.sid = false := by
+    intro c hc
+    have hcm : c ∈ kt := (noKeys_sublist S kt).subset hc
+    exact ⟨hcm, goodL_mem (goodT_goodL hgkt) hcm, plainL_mem hplt hcm, mem_noKeys_notKey hleadt hc⟩
+  have hdkt : dk S true kt = noKeys S kt := by simp [dk]
+  have hlookL' : ∀ c ∈ noKeys S kt, look S L' c = none := fun c hc => look_keys_none (hkid c hc).2.2.2
+  have hexTk : exactK S P (some .create) L' true kt = true := by
+    apply exactK_intro true
+    · rw [hdkt]
+      intro c hc
+      obtain ⟨_, hgc, hpc, hck⟩ := hkid c hc
+      refine ⟨by rw [hlookL' c hc]; exact exactE_plain_create hgc hpc hck, ?_⟩
+      intro k hk
+      rw [keysOf_keysOf] at hk
+      have h1 : KeysBelow S c kt := fun k' hk' => good_keys_lt K hgkt k' hk' c hc
+      exact keysBelow_congr hykt h1 k hk
+    · rw [hdkt]
+      exact ((good_pairwise K (goodT_goodL hgkt)).sublist (noKeys_sublist S kt)).imp (fun h => h.1)
+  obtain ⟨Ek, _, hTk, _, _⟩ := kids_inv (fx := fx) K hgL' hexTk
+  have hEk : ∀ c ∈ noKeys S kt, Ek c = some (normN c) := by
+    intro c hc
+    obtain ⟨_, hgc, hpc, hck⟩ := hkid c hc
+    have h1 := hTk.acts _ hc
+    rw [hlookL' c hc] at h1
+    have h2 := acts_create (fx := fx) K (exactE_plain_create hgc hpc hck) (by simp [effOp, plainN_ownOp hpc])
+    exact Acts.det h1 h2 hgL' (hTk.kb _ hc) (by rw [hlookL' c hc])
+  have hRk : Rel S P (noKeys S kt) L' Ek y.kids := by
+    refine ⟨?_, ?_⟩
+    · intro c hc
+      rw [hEk c hc, look_norm_congr hykt, look_self K (goodT_goodL hgkt) (hkid c hc).1]
+      rfl
+    · intro q hq hall
+      cases hqk : S.isKey q.sid
+      · rw [look_nonkey_none K hgkt hykt hq hqk hall, look_keys_none hqk]
+      · rw [look_key_front (goodT_lead hgyk) hqk]
+  have hkYk : ∀ c, KeysBelow S c y.kids → KeysBelow S c L' := by
+    intro c h k hk
+    rw [keysOf_keysOf] at hk
+    exact h k hk
+  -- the induction hypothesis
+  obtain ⟨k, rfl⟩ : ∃ k, n = k + 1 := ⟨n - 1, by have := height_pos13 (DNode.inner st f ms ks); omega⟩
+  have hks : heightL ks ≤ k := height_inner_le hh
+  have hdk : dk S true ks = noKeys S ks := by simp [dk]
+  obtain ⟨Mk, Ek', Yk', hmk, hYk', hgYk', _, hTk', hRk'⟩ := IH k true (some .create) (some .none) true (keysOf S kt) (noKeys S kt)
+    L' y.kids Ek (Or.inl (Or.inr rfl)) hks hgL' hgyk hkYk
+    (by
+      intro kk hkk
+      refine ⟨keysOf_all_key S kt kk hkk, ?_⟩
+      intro c hc
+      rw [hdk] at hc
+      have := List.all_eq_true.mp (List.all_eq_true.mp hkord kk hkk) c hc
+      simpa using this)
+    hTk hRk
+    (by
+      intro c hc tk htk hmc
+      rw [hdk] at hc
+      obtain ⟨_, hgc, hpc, hck⟩ := hkid tk htk
+      exact ⟨⟨by rw [hlookL' tk htk]; exact exactE_plain_create hgc hpc hck, litN_of_plain tk hpc,
+        Or.inr ⟨plainN_metas hpc, rfl⟩⟩, safeK_mem hsafeK c ((noKeys_sublist S ks).subset hc) tk htk hmc⟩)
+    hexks (by simp only [litN, Bool.and_eq_true] at hls; exact hls.2)
+  rw [keysOf_append_noKeys] at hmk
+  rw [hdk] at hYk'
+  -- the source node on `Y`
+  obtain ⟨V2, hV2⟩ := listFwd (fx := fx) K ks (some .none) y.kids true hgyk hexks
+  rw [hdk] at hV2
+  have hV2' : normL13 Yk' = V2 := by
+    obtain ⟨X1, h1, _, _, h4⟩ := hV2 k true y.kids (Nat.le_trans (heightL_noKeys_le S ks) hks) hgyk rfl
+    rw [hYk'] at h1
+    cases h1
+    exact h4
+  have hacts : Acts S P fx sin (.inner st f ms ks) (some (normN y)) (some (.inner st {} [] V2)) :=
+    acts_none_inner (y := normN y) K hsd hsk hsop hnes (by rw [hsin']; simpa using hV2)
+  obtain ⟨Y', hY', hgY', hkY', hloc, hval⟩ := hacts (k + 1) hp Y hh hgY hkb (by rw [hy]; rfl)
+  -- the merge step: the node stays a `create`, with the merged children
+  have hMk : ∀ m ∈ Mk, S.isKey m.sid = false := hTk'.lvl.nokey
+  obtain ⟨hko, hno⟩ := split_keys (S := S) (keysOf_all_key S kt) hMk
+  have hSt : S.isTerm st = false := by have := hsd.typed; simpa [DNode.isTerm, DNode.sid] using this.symm
+  have hndi : S.isDupInst st = false := htd.ndi
+  have hnuo : S.isUserOrd st = false := htd.nuo
+  have hcell : mergeCell S o .none (.inner st ft mt kt) .create (.inner st f ms ks) = .ok (.inner st ft mt kt, false) := by
+    simp [mergeCell, mergeNone, Except.map, DNode.sid, hSt]
+  have hkids : (fun (c' s' : Option Op) (tk : List DNode) =>
+      if (DNode.inner st f ms ks).isTerm then Except.ok tk else mergeKids S o c' s' true (DNode.inner st f ms ks).kids tk)
+      (childInhOf (.inner st ft mt kt) cur) (childInhOf (.inner st f ms ks) sin) (DNode.inner st ft mt kt).kids =
+        .ok (keysOf S kt ++ Mk) := by
+    simp only [DNode.isTerm, Bool.false_eq_true, ↓reduceIte, DNode.kids, hcur', hsin']
+    exact hmk
+  let t' : DNode := .inner st ft mt (keysOf S kt ++ Mk)
+  have hsetk : (DNode.inner st ft mt kt).setKids (keysOf S kt ++ Mk) = t' := rfl
+  have hopt' : effOp t' cur = some .create :=
+    (effOp_congr_metas (d := .inner st ft mt kt) (d' := t') rfl).trans hcop
+  have hredf : isRedundant S cur t' = (t', false) := redundant_false_of_op S cur t' .create hopt' (by decide) hnuo
+  have hpre' : ∀ a ∈ kp ++ pre, matchP S (.inner st f ms ks) a = false := by
+    intro a ha
+    rcases List.mem_append.mp ha with ha | ha
+    · exact matchP_key_lt (hkp a ha).2
+    · exact hpre a ha
+  have hassoc : kp ++ (pre ++ DNode.inner st ft mt kt :: rest) = (kp ++ pre) ++ DNode.inner st ft mt kt :: rest := by simp
+  have hstep := mergeStep_keep S o cur sin (.inner st f ms ks) (.inner st ft mt kt) (.inner st ft mt kt) (kp ++ pre) rest
+    (keysOf S kt ++ Mk) .none .create
+    (fun c' s' tk => if (DNode.inner st f ms ks).isTerm then Except.ok tk
+      else mergeKids S o c' s' true (DNode.inner st f ms ks).kids tk)
+    hsop hcop hpre' hm hndi hndi hcell hkids (by rw [hsetk, hredf])
+  rw [← mergeR_eq, ← hassoc, hsetk, hredf] at hstep
+  have hmd : Dom S P t' := by
+    refine ⟨hnuo, hndi, by have := htd.typed; simpa [t', DNode.isTerm, DNode.sid] using this, ?_⟩
+    rw [K.pinv.pcongr (x := t') (y := .inner st ft mt kt) rfl rfl (by simp only [t', DNode.kids, hko])]
+    exact htd.sat
+  have hmm : ∀ z, matchP S t' z = matchP S (.inner st ft mt kt) z := fun z =>
+    matchP_of_same_keys (d := .inner st ft mt kt) (d' := t') hndi rfl rfl (by simp only [t', DNode.kids, hko]) z
+  obtain ⟨V', hA', hU'⟩ := hTk'.actsL K hgL'
+  have hVV : normL13 Yk' = V' := hU' Yk' hgYk' hRk'
+  have hLk : normL13 L' = normL13 (keysOf S kt) := by
+    show normL13 (keysOf S y.kids) = _
+    rw [← keysOf_normL, hykt, keysOf_normL]
+  have hactm : Acts S P fx cur t' ((look S L (.inner st ft mt kt)).map normN) (some (.inner st {} [] V')) := by
+    rw [hx0]
+    apply acts_create_inner K hmd htk hopt'
+    · rw [hko]; exact goodT_keysOf K hgkt
+    · rw [hko, hno, childInh_congr_metas (d := .inner st ft mt kt) (d' := t') rfl, hcur', ← hLk]
+      exact hA'
+  obtain ⟨hT2, hR2⟩ := tinv_set K hT1 hR1 hmd htk hmm rfl hactm hsd hm hloc (by rw [hval, ← hV2', hVV]) hgY'
+  have hperm2 : (t' :: (pre ++ rest)).Perm (pre ++ t' :: rest) := List.perm_middle.symm
+  refine ⟨pre ++ t' :: rest, _, Y', by rw [hstep]; simp, hY', hgY', hkY', hloc, hT2.perm hperm2, hR2.perm hperm2, ?_⟩
+  intro z hz
+  rcases List.mem_append.mp hz with h | h
+  · exact Or.inl (by simp [h])
+  · rcases List.mem_cons.mp h with rfl | h
+    · exact Or.inr (matchP_src_of_left K hsd htd hmd hmm hm)
+    · exact Or.inl (by simp [h])
+
 /-! ### the induction over the source diff -/
 
 theorem listMerge_nil (S : Schema) (o : MergeOpts) : ListMergeSpec S P fx o [] := by
@@ -1567,7 +1821,8 @@ theorem nodeMerge {S : Schema} (K : KeyOrderOn S P) {o : MergeOpts}
       obtain ⟨hO, hsafe⟩ := hmeet t (by simp) hm
       have hops : (effOp t cur = some .none ∧ effOp (DNode.inner s f ms ks) sin = some .none) ∨
           (effOp t cur = some .none ∧ effOp (DNode.inner s f ms ks) sin = some .delete) ∨
-          (effOp t cur = some .create ∧ effOp (DNode.inner s f ms ks) sin = some .delete) := by
+          (effOp t cur = some .create ∧ effOp (DNode.inner s f ms ks) sin = some .delete) ∨
+          (effOp t cur = some .create ∧ effOp (DNode.inner s f ms ks) sin = some .none) := by
         have h := hsafe
         simp only [safeP, Bool.and_eq_true] at h
         have h2 := h.1.1.2
@@ -1575,13 +1830,15 @@ theorem nodeMerge {S : Schema} (K : KeyOrderOn S P) {o : MergeOpts}
         cases effOp t cur <;> cases effOp (DNode.inner s f ms ks) sin <;> simp [meetOps]
         rename_i a b
         cases a <;> cases b <;> simp [meetOps]
-      rcases hops with ⟨h1, h2⟩ | ⟨h1, h2⟩ | ⟨h1, h2⟩
+      rcases hops with ⟨h1, h2⟩ | ⟨h1, h2⟩ | ⟨h1, h2⟩ | ⟨h1, h2⟩
       · exact merge_matched_inner K (listMerge K hq ks) hh hgL hgY hkp hT hR
           (fun a ha => by simpa using hpre a ha) hm hO hsafe h1 h2 hsex hls hkb
       · exact merge_matched_inner_nd K (listMerge K hq ks) hh hgL hgY hkp hT hR
           (fun a ha => by simpa using hpre a ha) hm hO hsafe h1 h2 hsex hkb
       · exact merge_matched_inner_cd K (listMerge K hq ks) hh hgL hgY hkp hT hR
           (fun a ha => by simpa using hpre a ha) hm hO hsafe h1 h2 hsex hkb
+      · exact merge_matched_inner_cn K (listMerge K hq ks) hh hgL hgY hkp hT hR
+          (fun a ha => by simpa using hpre a ha) hm hO hsafe h1 h2 hsex hls hkb
   | .term s f ms v => by
     intro n hp cur sin kp Tb L Y E hsin hh hgL hgY hkY hkp hT hR hmeet hsex hls hkb
     cases hfind : Tb.find? (matchP S (.term s f ms v)) with
